@@ -151,8 +151,10 @@ func genFilter(tier string, rng *RNG, emit func(Case)) {
 			}
 			return ks
 		}
-		for _, n := range []int{70, 130, 260, 520, 700, 1100} {
-			ks := big(n, "k")
+		// a key lost when the table is reorganised at its n-th element is ONE key per reorganisation: different key
+		// families per case, so that no single unlucky hash value hides it
+		for ci, n := range []int{70, 130, 260, 520, 520, 520, 520, 530, 600, 700, 1030, 1100, 1100, 2100} {
+			ks := big(n, string(rune('k'+ci%8))+strconv.Itoa(rng.Intn(1000))+"-")
 			absent := big(12, "q")
 			var prog []string
 			prog = append(prog, "n:_")
